@@ -339,8 +339,347 @@ def build_T15e(tree):
     return '\n\n'.join(parts), hashlib.sha256(repr(vals).encode()).hexdigest()
 
 
+# ---------------------------------------------------------------- T15f / T15g / T15h: bridges for hand-written definitions
+def _norm(node):
+    return ' '.join(ast.unparse(node).split())
+
+
+def _one(seq, pred, what):
+    hits = [x for x in seq if pred(x)]
+    if len(hits) != 1:
+        raise Unsupported(f'expected exactly one {what}, found {len(hits)}')
+    return hits[0]
+
+
+def _parse(text):
+    body = ast.parse(text).body
+    for st in body:
+        ast.fix_missing_locations(st)
+    return body
+
+
+def _range_guard(loop, var, what):
+    """`if <var> < 1 or <var> > <n>: raise …` followed by `<index> = <var> - 1` at the head of a loop body:
+    (guard statement, index expression)"""
+    g = loop.body[0]
+    if not (isinstance(g, ast.If) and not g.orelse and len(g.body) == 1 and isinstance(g.body[0], ast.Raise) and var in _norm(g.test)):
+        raise Unsupported(f'{what}: the loop over the named frames no longer starts with the range guard')
+    idx = loop.body[1]
+    if not (isinstance(idx, ast.Assign) and isinstance(idx.targets[0], ast.Name) and var in _norm(idx.value)):
+        raise Unsupported(f'{what}: the 0-based index is no longer computed right after the range guard')
+    item = loop.body[2]
+    if not (isinstance(item, ast.Assign) and _norm(item.value) == f'segmentation.PerFrameFunctionalGroupsSequence[{idx.targets[0].id}]'):
+        raise Unsupported(f'{what}: the frame item is no longer PerFrameFunctionalGroupsSequence[{idx.targets[0].id}]')
+    return g, idx
+
+
+def build_T15f(tree):
+    """sr/content.py::ReferencedSegmentationFrame.from_segmentation, expression by expression (bridge for the hand-written
+    segFrameNumbers / segFrameLoop / segFrameSource / segFrameSegment of Model/SREvidence.lean, Proofs/SegRefTie.lean):
+      Gen.segFrameOwnGuard (n_frames tiled)        the frames of the segment found when no frame number is given: refusals
+      Gen.segFrameIndex (frame_number number_of_frames)   range guard of the loop over the named frames and the 0-based index
+      Gen.segFrameStep (has_drv n_drv has_src n_src uids_none uids_differ has_frames) -> (set source uids, union frame numbers,
+                                                    whole image): the loop body after the segment number was recorded
+      Gen.segFrameNameFrames (n_source_frames whole)      whether the source image is named with frame numbers
+      Gen.segFrameFallback (has_refseries has_refinstances n_instances)  the referenced-series fallback (true = its single instance)
+      Gen.segFrameSegmentCheck (n_segments requested differs)            the checks on the collected segment numbers"""
+    fn = find_func(tree, 'ReferencedSegmentationFrame.from_segmentation')
+    body = strip_doc(fn.body)
+    texts = []
+    # ---- frame numbers of the segment when none are given
+    first = _one(body, lambda s: isinstance(s, ast.If) and _norm(s.test) == 'frame_number is None', '`if frame_number is None`')
+    own = _one(first.body, lambda s: isinstance(s, ast.If) and 'len(frame_numbers)' in _norm(s.test), 'test on the frames of the segment')
+    comp = _one(first.body, lambda s: isinstance(s, ast.Assign) and _norm(s.targets[0]) == 'frame_numbers', 'assignment of frame_numbers')
+    want = ('[i + 1 for i, item in enumerate(segmentation.PerFrameFunctionalGroupsSequence) if segment_number == '
+            'item.SegmentIdentificationSequence[0].ReferencedSegmentNumber]')
+    if _norm(comp.value) != want:
+        raise Unsupported('from_segmentation: the frames of the segment are no longer the 1-based positions of the items naming it')
+    texts.append(translate_block([own] + _parse('return True'), 'segFrameOwnGuard', [],
+                                 {'len(frame_numbers)': ('int', 'n_frames'), "hasattr(segmentation, 'TotalPixelMatrixRows')": ('bool', 'tiled')},
+                                 doc='`ReferencedSegmentationFrame.from_segmentation`: refusals on the frames found for the segment'))
+    # ---- the loop over the named frames
+    loop = _one(body, lambda s: isinstance(s, ast.For) and _norm(s.iter) == 'frame_numbers', '`for frame_number in frame_numbers`')
+    var = _norm(loop.target)
+    nof = _one(body, lambda s: isinstance(s, ast.Assign) and _norm(s.targets[0]) == 'number_of_frames', 'assignment of number_of_frames')
+    if _norm(nof.value) != 'int(segmentation.NumberOfFrames)':
+        raise Unsupported('from_segmentation: number_of_frames is no longer int(segmentation.NumberOfFrames)')
+    g, idx = _range_guard(loop, var, 'ReferencedSegmentationFrame.from_segmentation')
+    texts.append(translate_block([g, ast.fix_missing_locations(ast.Return(value=idx.value))], 'segFrameIndex',
+                                 [(var, 'int'), ('number_of_frames', 'int')], {},
+                                 doc='`ReferencedSegmentationFrame.from_segmentation`: range guard on a named frame number, then the 0-based index'))
+    if _norm(loop.body[3]) != 'segment_numbers.append(item.SegmentIdentificationSequence[0].ReferencedSegmentNumber)':
+        raise Unsupported('from_segmentation: the segment number of every named frame is no longer recorded first')
+    if len(loop.body) != 5:
+        raise Unsupported('from_segmentation: the loop body changed shape')
+    drv = loop.body[4]
+    if not (isinstance(drv, ast.If) and _norm(drv.test) == "hasattr(item, 'DerivationImageSequence')" and not drv.orelse):
+        raise Unsupported('from_segmentation: `if hasattr(item, "DerivationImageSequence")` not found')
+
+    class R(ast.NodeTransformer):
+        """state updates -> flags; reads of the data set -> dropped (their values are the parameters)"""
+        def visit_Assign(self, node):
+            t, v = _norm(node.targets[0]), _norm(node.value)
+            if (t, v) in (('drv_image', 'item.DerivationImageSequence[0]'), ('src', 'drv_image.SourceImageSequence[0]'),
+                          ('src_uids', '(src.ReferencedSOPClassUID, src.ReferencedSOPInstanceUID)'),
+                          ('src_frame_numbers', "getattr(src, 'ReferencedFrameNumber', None)")):
+                return None
+            if (t, v) == ('source_image_uids', 'src_uids'):
+                return _parse('set_uids = True')[0]
+            if (t, v) == ('source_is_whole_image', 'True'):
+                return _parse('whole = True')[0]
+            raise Unsupported(f'from_segmentation: unexpected assignment `{t} = {v}` in the loop')
+
+        def visit_If(self, node):
+            if _norm(node.test) == "src['ReferencedFrameNumber'].VM == 1":
+                if _norm(node) != "if src['ReferencedFrameNumber'].VM == 1: src_frame_numbers = [src_frame_numbers]" or node.orelse:
+                    raise Unsupported('from_segmentation: normalisation of a single source frame number changed')
+                return None
+            self.generic_visit(node)
+            return node
+
+        def visit_For(self, node):
+            if _norm(node) != 'for f in src_frame_numbers: if f not in source_frame_numbers: source_frame_numbers.append(f)':
+                raise Unsupported('from_segmentation: the union of the source frame numbers changed')
+            return _parse('union = True')[0]
+    step = R().visit(ast.parse(ast.unparse(drv)).body[0])
+    blk = _parse('set_uids = False\nunion = False\nwhole = False') + [ast.fix_missing_locations(step)] + _parse('return (set_uids, union, whole)')
+    texts.append(translate_block(blk, 'segFrameStep', [],
+                                 {"hasattr(item, 'DerivationImageSequence')": ('bool', 'has_drv'),
+                                  'len(item.DerivationImageSequence)': ('int', 'n_drv'),
+                                  "hasattr(drv_image, 'SourceImageSequence')": ('bool', 'has_src'),
+                                  'len(drv_image.SourceImageSequence)': ('int', 'n_src'),
+                                  'source_image_uids is None': ('bool', 'uids_none'),
+                                  'src_uids != source_image_uids': ('bool', 'uids_differ'),
+                                  'src_frame_numbers is not None': ('bool', 'has_frames')},
+                                 doc='`ReferencedSegmentationFrame.from_segmentation`: the loop body on the derivation of one named frame -> '
+                                     '(source uids are set, its frame numbers are united into the list, derived from the whole image)'))
+    # ---- how the source image is named
+    after = body[body.index(loop) + 1:]
+    mk = _one(after, lambda s: isinstance(s, ast.If) and _norm(s.test) == 'source_image_uids is not None', '`if source_image_uids is not None`')
+    call = mk.body[0].value if len(mk.body) == 1 and isinstance(mk.body[0], ast.Assign) else None
+    if not (isinstance(call, ast.Call) and _norm(call.func) == 'SourceImageForSegmentation' and len(call.args) == 3
+            and [_norm(a) for a in call.args[:2]] == ['source_image_uids[0]', 'source_image_uids[1]'] and isinstance(call.args[2], ast.IfExp)):
+        raise Unsupported('from_segmentation: construction of the source image changed')
+    ife = call.args[2]
+    if _norm(ife.body) != 'source_frame_numbers' or _norm(ife.orelse) != 'None':
+        raise Unsupported('from_segmentation: the source frame numbers handed to SourceImageForSegmentation changed')
+
+    class L(ast.NodeTransformer):
+        def visit_Name(self, node):
+            if node.id == 'source_frame_numbers':
+                return ast.parse('n_source_frames > 0', mode='eval').body
+            return node
+    test = L().visit(ast.parse(ast.unparse(ife.test), mode='eval').body)
+    texts.append(translate_block([ast.fix_missing_locations(ast.If(test=test, body=_parse('return True'), orelse=_parse('return False')))],
+                                 'segFrameNameFrames', [('n_source_frames', 'int'), ('source_is_whole_image', 'bool')], {},
+                                 doc='`ReferencedSegmentationFrame.from_segmentation`: true = the source image is named with the collected frame '
+                                     'numbers, false = as a whole'))
+    # ---- fallback and segment checks
+    fb = _one(after, lambda s: isinstance(s, ast.If) and _norm(s.test) == 'not found_source_image', '`if not found_source_image`')
+    fnd = _one(after, lambda s: isinstance(s, ast.Assign) and _norm(s.targets[0]) == 'found_source_image', 'assignment of found_source_image')
+    if _norm(fnd.value) != 'source_image_uids is not None':
+        raise Unsupported('from_segmentation: found_source_image changed')
+
+    class F(ast.NodeTransformer):
+        def visit_Assign(self, node):
+            t, v = _norm(node.targets[0]), _norm(node.value)
+            if (t, v) in (('ref_series', 'segmentation.ReferencedSeriesSequence[0]'), ('src', 'ref_series.ReferencedInstanceSequence[0]')):
+                return None
+            if (t, v) == ('source_image', 'SourceImageForSegmentation(src.ReferencedSOPClassUID, src.ReferencedSOPInstanceUID)'):
+                return _parse('return True')[0]
+            raise Unsupported(f'from_segmentation: unexpected assignment `{t} = {v}` in the fallback')
+    fbb = [F().visit(ast.parse(ast.unparse(st)).body[0]) for st in fb.body]
+    texts.append(translate_block([ast.fix_missing_locations(x) for x in fbb if x is not None], 'segFrameFallback', [],
+                                 {"hasattr(segmentation, 'ReferencedSeriesSequence')": ('bool', 'has_refseries'),
+                                  "hasattr(ref_series, 'ReferencedInstanceSequence')": ('bool', 'has_refinstances'),
+                                  'len(ref_series.ReferencedInstanceSequence)': ('int', 'n_instances')},
+                                 doc='`ReferencedSegmentationFrame.from_segmentation`: no source image in the named frames -> the single '
+                                     'instance of the referenced series (true) or a refusal'))
+    dd = _one(after, lambda s: isinstance(s, ast.Assign) and _norm(s.targets[0]) == 'segment_numbers', 'deduplication of segment_numbers')
+    if _norm(dd.value) != 'list(set(segment_numbers))':
+        raise Unsupported('from_segmentation: segment numbers are no longer deduplicated')
+    checks = [s for s in after[after.index(dd) + 1:] if isinstance(s, ast.If)]
+    if len(checks) != 2:
+        raise Unsupported('from_segmentation: the two checks on the segment numbers not found')
+    texts.append(translate_block(checks + _parse('return True'), 'segFrameSegmentCheck', [],
+                                 {'len(segment_numbers)': ('int', 'n_segments'), 'segment_number is not None': ('bool', 'requested'),
+                                  'segment_numbers[0] != segment_number': ('bool', 'differs')},
+                                 doc='`ReferencedSegmentationFrame.from_segmentation`: the checks on the distinct segment numbers of the named frames'))
+    ret = after[-1]
+    rt = _norm(ret)
+    for needle in ('frame_number=frame_numbers if len(frame_numbers) > 1 else frame_numbers[0]', 'segment_number=segment_numbers[0]',
+                   'source_image=source_image', 'sop_instance_uid=segmentation.SOPInstanceUID'):
+        if needle not in rt:
+            raise Unsupported(f'from_segmentation: the reference is no longer built with `{needle}`')
+    return '\n\n'.join(texts), hashlib.sha256(ast.unparse(fn).encode()).hexdigest()
+
+
+def build_T15g(tree):
+    """sr/content.py::ReferencedSegment.from_segmentation (bridge for namedFrames / mergeSrc / mergeFrames / refSegment):
+      Gen.segRefIndex (f number_of_frames)          range guard on a named frame number and the 0-based index
+      Gen.segRefSegmentGuard (ref_segment segment_number)   the named frame must belong to the segment
+      Gen.segRefOwnGuard (n_frames)                 no frame number given: the segment must have frames
+      Gen.segRefMerge (known known_none ref_none)   per source image: 0 = first mention (entry [class, frames]), 1 = the whole
+                                                    instance from now on, 2 = union of the frame numbers
+      Gen.segRefFallback (n_sources has_refseries has_refinstances has_series_uid)  0 = sources of the frames, 1 = instances of
+                                                    the referenced series, 2 = the referenced series itself"""
+    fn = find_func(tree, 'ReferencedSegment.from_segmentation')
+    body = strip_doc(fn.body)
+    texts = []
+    sel = _one(body, lambda s: isinstance(s, ast.If) and _norm(s.test) == 'frame_numbers is not None', '`if frame_numbers is not None`')
+    loop = _one(sel.body, lambda s: isinstance(s, ast.For), 'loop over the named frames')
+    if _norm(loop.iter) != 'frame_numbers':
+        raise Unsupported('ReferencedSegment.from_segmentation: the loop no longer runs over frame_numbers')
+    var = _norm(loop.target)
+    g, idx = _range_guard(loop, var, 'ReferencedSegment.from_segmentation')
+    texts.append(translate_block([g, ast.fix_missing_locations(ast.Return(value=idx.value))], 'segRefIndex', [(var, 'int')],
+                                 {'segmentation.NumberOfFrames': ('int', 'number_of_frames')},
+                                 doc='`ReferencedSegment.from_segmentation`: range guard on a named frame number, then the 0-based index'))
+    rest = loop.body[3:]
+    if [_norm(x) for x in rest[::2]] != ['ref_segment = frame_info.SegmentIdentificationSequence[0].ReferencedSegmentNumber',
+                                         'referenced_frame_info.append(frame_info)'] or len(rest) != 3:
+        raise Unsupported('ReferencedSegment.from_segmentation: the body of the loop over the named frames changed shape')
+    texts.append(translate_block([rest[1]] + _parse('return True'), 'segRefSegmentGuard', [('ref_segment', 'int'), ('segment_number', 'int')], {},
+                                 doc='`ReferencedSegment.from_segmentation`: a named frame of another segment is refused'))
+    comp = _one(sel.orelse, lambda s: isinstance(s, ast.Assign) and _norm(s.targets[0]) == 'referenced_frame_info', 'frames of the segment')
+    if _norm(comp.value) != ('[frame_info for frame_info in segmentation.PerFrameFunctionalGroupsSequence if '
+                             'frame_info.SegmentIdentificationSequence[0].ReferencedSegmentNumber == segment_number]'):
+        raise Unsupported('ReferencedSegment.from_segmentation: the frames of the segment are no longer the items naming it')
+    own = _one(sel.orelse, lambda s: isinstance(s, ast.If), 'test on the frames of the segment')
+    texts.append(translate_block([own] + _parse('return True'), 'segRefOwnGuard', [], {'len(referenced_frame_info)': ('int', 'n_frames')},
+                                 doc='`ReferencedSegment.from_segmentation`: a segment without frames is refused'))
+    # ---- the per-instance table
+    gather = _one(body, lambda s: isinstance(s, ast.For) and _norm(s.iter) == 'referenced_frame_info', 'loop over the referenced frames')
+    l2 = gather.body[0] if len(gather.body) == 1 else None
+    if not (isinstance(l2, ast.For) and _norm(l2.iter) == "getattr(frame_info, 'DerivationImageSequence', [])" and len(l2.body) == 1
+            and isinstance(l2.body[0], ast.For) and _norm(l2.body[0].iter) == "getattr(drv_image, 'SourceImageSequence', [])"):
+        raise Unsupported('ReferencedSegment.from_segmentation: every source image of every derivation item is no longer visited')
+    inner = l2.body[0].body
+    heads = [_norm(x) for x in inner[:3]]
+    if heads != ['ins_uid = src_image.ReferencedSOPInstanceUID', 'cls_uid = src_image.ReferencedSOPClassUID',
+                 "ref_frames = getattr(src_image, 'ReferencedFrameNumber', None)"] or len(inner) != 5:
+        raise Unsupported('ReferencedSegment.from_segmentation: the reads of a source image changed')
+    if _norm(inner[3]) != ("if ref_frames is not None: if src_image['ReferencedFrameNumber'].VM == 1: ref_frames = [ref_frames] "
+                           'else: ref_frames = list(ref_frames)'):
+        raise Unsupported('ReferencedSegment.from_segmentation: normalisation of the source frame numbers changed')
+
+    class M(ast.NodeTransformer):
+        def visit_Assign(self, node):
+            t, v = _norm(node.targets[0]), _norm(node.value)
+            if (t, v) == ('source_info[ins_uid]', '[cls_uid, ref_frames]'):
+                return _parse('return 0')[0]
+            if (t, v) == ('known_frames', 'source_info[ins_uid][1]'):
+                return None
+            if (t, v) == ('source_info[ins_uid][1]', 'None'):
+                return _parse('return 1')[0]
+            raise Unsupported(f'ReferencedSegment.from_segmentation: unexpected assignment `{t} = {v}` in the merge')
+
+        def visit_For(self, node):
+            if _norm(node) != 'for f in ref_frames: if f not in known_frames: known_frames.append(f)':
+                raise Unsupported('ReferencedSegment.from_segmentation: the union of the source frame numbers changed')
+            return _parse('return 2')[0]
+    merge = M().visit(ast.parse(ast.unparse(inner[4])).body[0])
+    texts.append(translate_block([ast.fix_missing_locations(merge)], 'segRefMerge', [],
+                                 {'ins_uid not in source_info': ('bool', 'is_new'), 'known_frames is None': ('bool', 'known_none'),
+                                  'ref_frames is None': ('bool', 'ref_none')},
+                                 doc='`ReferencedSegment.from_segmentation`: a source image meets the per-instance table: 0 = new entry, 1 = whole '
+                                     'instance from now on, 2 = union of the frame numbers'))
+    emit = _one(body, lambda s: isinstance(s, ast.For) and _norm(s.iter) == 'source_info.items()', 'loop over source_info')
+    if _norm(emit) != ('for ins_uid, (cls_uid, ref_frames) in source_info.items(): source_images.append(SourceImageForSegmentation('
+                       'referenced_sop_class_uid=cls_uid, referenced_sop_instance_uid=ins_uid, referenced_frame_numbers=ref_frames))'):
+        raise Unsupported('ReferencedSegment.from_segmentation: the source images are no longer the entries of source_info in order')
+    # ---- fallback
+    fb = _one(body, lambda s: isinstance(s, ast.If) and _norm(s.test) == 'len(source_images) == 0', '`if len(source_images) == 0`')
+
+    class F(ast.NodeTransformer):
+        def visit_Assign(self, node):
+            t, v = _norm(node.targets[0]), _norm(node.value)
+            if (t, v) == ('ref_series', 'segmentation.ReferencedSeriesSequence[0]'):
+                return None
+            if t == 'source_images' and v == ('[SourceImageForSegmentation(s.ReferencedSOPClassUID, s.ReferencedSOPInstanceUID) for s in '
+                                             'ref_series.ReferencedInstanceSequence]'):
+                return _parse('return 1')[0]
+            if (t, v) == ('source_series', 'SourceSeriesForSegmentation(ref_series.SeriesInstanceUID)'):
+                return _parse('return 2')[0]
+            raise Unsupported(f'ReferencedSegment.from_segmentation: unexpected assignment `{t} = {v}` in the fallback')
+    fbn = F().visit(ast.parse(ast.unparse(fb)).body[0])
+    texts.append(translate_block([ast.fix_missing_locations(fbn)] + _parse('return 0'), 'segRefFallback', [],
+                                 {'len(source_images)': ('int', 'n_sources'), "hasattr(segmentation, 'ReferencedSeriesSequence')": ('bool', 'has_refseries'),
+                                  "hasattr(ref_series, 'ReferencedInstanceSequence')": ('bool', 'has_refinstances'),
+                                  "hasattr(ref_series, 'SeriesInstanceUID')": ('bool', 'has_series_uid')},
+                                 doc='`ReferencedSegment.from_segmentation`: 0 = the sources found in the frames, 1 = the instances of the referenced '
+                                     'series, 2 = the referenced series'))
+    rt = _norm(body[-1])
+    for needle in ('segment_number=segment_number', 'frame_numbers=frame_numbers', 'source_images=source_images if source_images else None',
+                   'source_series=source_series', 'sop_instance_uid=segmentation.SOPInstanceUID'):
+        if needle not in rt:
+            raise Unsupported(f'ReferencedSegment.from_segmentation: the reference is no longer built with `{needle}`')
+    return '\n\n'.join(texts), hashlib.sha256(ast.unparse(fn).encode()).hexdigest()
+
+
+def build_T15h(tree):
+    """sr/sop.py::_SR.__init__ (bridge for the hand-written buildSR): the guards that are not part of T15a and what is recorded.
+      Gen.srEvidenceGuard (n_evidence)                     `if len(evidence) == 0`
+      Gen.srContentGuard (is_sequence n_content)           a sequence must hold exactly one root
+      Gen.srRecordCurrent (n_ref_items)                    whether CurrentRequestedProcedureEvidenceSequence is set
+      Gen.srRecordOther (n_unref_items record_evidence)    whether PertinentOtherEvidenceSequence is set
+      Gen.srRecordPredecessors (has_previous)              whether PredecessorDocumentsSequence is set
+    plus the order of these steps and what the attributes are set to (shape checks)."""
+    fn = find_func(tree, '_SR.__init__')
+    body = strip_doc(fn.body)
+    texts = []
+    ev = _one(body, lambda s: isinstance(s, ast.If) and 'len(evidence)' in _norm(s.test), 'guard on the evidence list')
+    texts.append(translate_block([ev] + _parse('return True'), 'srEvidenceGuard', [], {'len(evidence)': ('int', 'n_evidence')},
+                                 doc='`_SR.__init__`: an empty evidence list is refused'))
+    cs = _one(body, lambda s: isinstance(s, ast.If) and _norm(s.test) == 'isinstance(content, DataElementSequence)', 'test for a sequence')
+    if _norm(cs.body[-1]) != 'content = content[0]' or cs.orelse or len(cs.body) != 2:
+        raise Unsupported('_SR.__init__: a sequence is no longer replaced by its first item after the length check')
+    texts.append(translate_block([cs.body[0]] + _parse('return True'), 'srContentGuard', [], {'len(content)': ('int', 'n_content')},
+                                 doc='`_SR.__init__`: number of root items of a content sequence'))
+    col = _one(body, lambda s: isinstance(s, ast.Assign) and 'collect_evidence' in _norm(s.value), 'call of collect_evidence')
+    if _norm(col) != 'ref_items, unref_items = collect_evidence(evidence, content)':
+        raise Unsupported('_SR.__init__: collect_evidence is no longer called with (evidence, content) / unpacked as (referenced, unreferenced)')
+    k = body.index(col)
+    cur, oth = body[k + 1], body[k + 2]
+    if not (isinstance(cur, ast.If) and _norm(cur.body[0]) == 'self.CurrentRequestedProcedureEvidenceSequence = ref_items' and not cur.orelse
+            and len(cur.body) == 1):
+        raise Unsupported('_SR.__init__: recording of the current-procedure evidence changed')
+    if not (isinstance(oth, ast.If) and _norm(oth.body[0]) == 'self.PertinentOtherEvidenceSequence = unref_items' and not oth.orelse
+            and len(oth.body) == 1):
+        raise Unsupported('_SR.__init__: recording of the other evidence changed')
+    texts.append(translate_block([ast.If(test=cur.test, body=_parse('return True'), orelse=_parse('return False'))], 'srRecordCurrent', [],
+                                 {'len(ref_items)': ('int', 'n_ref_items')},
+                                 doc='`_SR.__init__`: CurrentRequestedProcedureEvidenceSequence is set to the referenced groups'))
+    texts.append(translate_block([ast.If(test=oth.test, body=_parse('return True'), orelse=_parse('return False'))], 'srRecordOther',
+                                 [('record_evidence', 'bool')], {'len(unref_items)': ('int', 'n_unref_items')},
+                                 doc='`_SR.__init__`: PertinentOtherEvidenceSequence is set to the unreferenced groups'))
+    pre = _one(body, lambda s: isinstance(s, ast.If) and 'previous_versions' in _norm(s.test), 'test on previous_versions')
+    if [_norm(x) for x in pre.body] != ['pre_items = self._collect_predecessors(previous_versions)', 'self.PredecessorDocumentsSequence = pre_items'] \
+            or pre.orelse:
+        raise Unsupported('_SR.__init__: recording of the predecessor documents changed')
+    texts.append(translate_block([ast.If(test=pre.test, body=_parse('return True'), orelse=_parse('return False'))], 'srRecordPredecessors', [],
+                                 {'previous_versions is not None': ('bool', 'has_previous')},
+                                 doc='`_SR.__init__`: PredecessorDocumentsSequence is set'))
+    ver = _one(body, lambda s: isinstance(s, ast.If) and _norm(s.test) == 'is_verified', '`if is_verified`')
+    order = [body.index(x) for x in (ev, ver, cs, col, pre)]
+    if order != sorted(order):
+        raise Unsupported('_SR.__init__: the order evidence guard < verification < content < evidence collection < predecessors changed')
+    conv = [_norm(s) for s in body[body.index(cs) + 1:k]]
+    for needle in ('content_copy = deepcopy(content)', 'content_item = ContentItem._from_dataset_derived(content_copy)',
+                   'self._content = ContentSequence([content_item], is_root=True)'):
+        if needle not in conv:
+            raise Unsupported(f'_SR.__init__: `{needle}` no longer between the content guard and the evidence collection')
+    for st in texts:
+        pass
+    span = [ev, cs, col, cur, oth, pre]
+    return '\n\n'.join(texts), hashlib.sha256(''.join(ast.unparse(x) for x in span).encode()).hexdigest()
+
+
 TARGETS = {'T15a': {'file': 'sr/sop.py', 'build': build_T15a},
            'T15e': {'file': 'sr/enum.py', 'build': build_T15e},
            'T15d': {'file': 'sr/sop.py', 'build': build_T15d},
            'T15c': {'file': 'sr/utils.py', 'build': build_T15c},
-           'T15b': {'file': 'sr/utils.py', 'build': build_T15b}}
+           'T15b': {'file': 'sr/utils.py', 'build': build_T15b},
+           'T15f': {'file': 'sr/content.py', 'build': build_T15f},
+           'T15g': {'file': 'sr/content.py', 'build': build_T15g},
+           'T15h': {'file': 'sr/sop.py', 'build': build_T15h}}
